@@ -247,7 +247,16 @@ func (t *Tree) RandomBody(b *Builder, prof Profile) {
 				b.V2Form(r, h, uint64(1+t.Rng.IntN(4)), uint64(1+t.Rng.IntN(3)), t.Rng.IntN(3) != 0)
 			case k < 10:
 				if cs := b.v2Contracts(); len(cs) > 0 {
-					b.V2Revise(cs[t.Rng.IntN(len(cs))])
+					e := cs[t.Rng.IntN(len(cs))]
+					// consensus lets one block revise a contract and then renew it
+					// (the renewal names the element as it was before the block):
+					// the block's single diff for the contract then carries a
+					// revision AND a resolution
+					if b.V2Revise(e) && t.Rng.IntN(3) == 0 {
+						if b.V2Renew(e) {
+							b.Kinds = append(b.Kinds, "v2-revised-and-renewed-in-one-block")
+						}
+					}
 				}
 			case k < 11:
 				if cs := b.v2Contracts(); len(cs) > 0 {
